@@ -11,7 +11,7 @@ sh $S/demo.sh /repo > $S/.out_repo 2>&1; echo "exit $?"; tail -3 $S/.out_repo
 echo "-- demo on changed worktree $WT (expect non-zero):"
 sh $S/demo.sh $WT > $S/.out_wt 2>&1; echo "exit $?"; tail -3 $S/.out_wt
 echo "-- test suite in changed worktree (make -j16 -C tests check):"
-make -s -j16 -C $WT/tests check > $S/.out_tests 2>&1; grep -E "tests succeeded|Tests failed" $S/.out_tests
+TD=$(mktemp -d); TMPDIR=$TD make -s -j16 -C $WT/tests check > $S/.out_tests 2>&1; rm -rf $TD; grep -E "tests succeeded|Tests failed" $S/.out_tests
 } > $S/validation.txt 2>&1
 rm -f $S/.out_repo $S/.out_wt $S/.out_tests
 cat $S/validation.txt
